@@ -746,6 +746,10 @@ func TestVerifC45Wide(t *testing.T) {
 		})
 	})
 	c.Count("random_cases", int(nrand))
+	// outside the evaluated domain (see header): a negative int operand is converted with uint64(b)
+	if got := MulAIntSaturate(MicroAlgos{Raw: 2}, -1); got.Raw != 0 {
+		c.Observation("MulAIntSaturate(2 microAlgos, -1) = %d: a negative int operand saturates upward (uint64 conversion) instead of to 0; callers pass encoded sizes (never negative), so this is not evaluated as a violation", got.Raw)
+	}
 	c.Sample(map[string]any{"grid_values": len(grid), "quad_grid_values": c.N(len(small), len(grid)), "random_operand_tuples": nrand})
 	c.Require("overflow_cases", 10_000)
 	c.Require("exact_cases", 10_000)
